@@ -334,5 +334,11 @@ def r5_documented_methods(chk: Check) -> None:
     shared.documented_methods_rule(chk, "C03.R5", "labels")
 
 
+def rfwd_forwarding(chk: Check) -> None:
+    from . import shared
+
+    shared.forwarding_rule(chk, "C03.FWD", ('generation/coverage.py:', 'generation/meta.py:'), "coverage value labels", 2)
+
+
 def rules(tier: str) -> list:  # type: ignore[type-arg]
-    return [r1_label_source, r2_yield_discipline, r3_bound_presence, r4_description_protocol, r5_documented_methods, r6_floor_arithmetic]
+    return [r1_label_source, r2_yield_discipline, r3_bound_presence, r4_description_protocol, r5_documented_methods, r6_floor_arithmetic, rfwd_forwarding]
